@@ -147,6 +147,9 @@ Proof.
     + destruct outs as [|o [|o2 rest]]; try discriminate. intros H. injection H as <-. reflexivity.
     + intros H. injection H as <-. rewrite map_map. cbn [fst]. rewrite map_id. reflexivity.
     + discriminate.
+    + destruct outs as [|o [|o2 rest]]; try discriminate. intros H. injection H as <-. reflexivity.
+    + destruct outs as [|o [|o2 rest]]; try discriminate. destruct (all_files _); [|discriminate].
+      intros H. injection H as <-. reflexivity.
     + discriminate.
   - discriminate.
   - destruct outs as [|o [|o2 rest]]; try discriminate. intros H. injection H as <-. reflexivity.
@@ -292,15 +295,15 @@ Proof.
   unfold build_filegroup, out_rels, out_rel. generalize (outputs t) as fs.
   induction fs as [|f fs IH]; intros rn; cbn [fold_left map].
   - cbn. repeat split; auto.
-  - set (rn1 := match alookup (join (t_pkg t) f) (r_files r) with
+  - set (rn1 := match fg_src r (join (t_pkg t) f) with
                 | Some c => _ | None => _ end).
     specialize (IH rn1). cbn zeta in IH. destruct IH as (Ho & Hm & Hl & Hf).
     assert (H1 : (forall rel, rel <> join (t_pkg t) f -> s_outs (rn_st rn1) rel = s_outs (rn_st rn) rel)
                  /\ s_meta (rn_st rn1) = s_meta (rn_st rn) /\ rn_log rn1 = rn_log rn
                  /\ (rn_failed rn1 = rn_failed rn \/ rn_failed rn1 = t_label t :: rn_failed rn)).
-    { subst rn1. destruct (alookup (join (t_pkg t) f) (r_files r)) as [c|].
+    { subst rn1. destruct (fg_src r (join (t_pkg t) f)) as [c|].
       - destruct (s_outs (rn_st rn) (join (t_pkg t) f)) as [e|].
-        + destruct (str_eqb (stream (e_node e)) c); cbn; repeat split; auto.
+        + destruct (str_eqb (stream (e_node e)) (stream c)); cbn; repeat split; auto.
           intros rel Hne. apply set_out_other. exact Hne.
         + cbn. repeat split; auto. intros rel Hne. apply set_out_other. exact Hne.
       - unfold fail_run. cbn. repeat split; auto. }
@@ -325,8 +328,8 @@ Lemma build_filegroup_dyn r t : forall rn, s_dyn (rn_st (build_filegroup r t rn)
 Proof.
   unfold build_filegroup. generalize (outputs t) as fs.
   induction fs as [|f fs IH]; intros rn; cbn [fold_left]; [reflexivity|].
-  rewrite IH. destruct (alookup (join (t_pkg t) f) (r_files r)) as [c|]; [|reflexivity].
-  cbn zeta. destruct (s_outs (rn_st rn) (join (t_pkg t) f)) as [e|]; [destruct (str_eqb _ c)|]; reflexivity.
+  rewrite IH. destruct (fg_src r (join (t_pkg t) f)) as [c|]; [|reflexivity].
+  cbn zeta. destruct (s_outs (rn_st rn) (join (t_pkg t) f)) as [e|]; [destruct (str_eqb _ _)|]; reflexivity.
 Qed.
 
 Lemma set_meta_dyn_other st l l' : l' <> l -> s_dyn (set_meta st l) l' = s_dyn st l'.
@@ -337,7 +340,7 @@ Lemma run_action_frame r rn t rk :
   (forall rel, ~ In rel (out_rels t) -> s_outs (rn_st rn') rel = s_outs (rn_st rn) rel)
   /\ (forall l, l <> t_label t -> s_meta (rn_st rn') l = s_meta (rn_st rn) l /\ s_dyn (rn_st rn') l = s_dyn (rn_st rn) l).
 Proof.
-  unfold run_action. destruct (gather (read r (rn_st rn)) (all_paths r t)) as [ins|].
+  unfold run_action. destruct (gather_in r (rn_st rn) t) as [ins|].
   - destruct (act (t_kind t) (outputs t) (tmp_ins ins)) as [news|] eqn:Ha; cbn [rn_st].
     + apply act_names in Ha. split.
       * intros rel Hn. rewrite move_fold_outs by (rewrite Ha; exact Hn). reflexivity.
@@ -399,7 +402,7 @@ Proof.
     unfold build_rule. destruct (negb (needs_build r (rn_st rn) t)); [left; reflexivity|].
     destruct (source_key r (rn_st rn) t) as [sk|]; [|left; reflexivity].
     destruct (if c then s_cache (rn_st rn) (t_label t) ((t_defkey t, []), sk) else None); [left; reflexivity|].
-    unfold run_action. destruct (gather _ _); [|left; reflexivity].
+    unfold run_action. destruct (gather_in _ _ _); [|left; reflexivity].
     destruct (act _ _ _); right; reflexivity.
 Qed.
 
@@ -420,6 +423,6 @@ Proof.
     unfold build_rule. destruct (negb (needs_build r (rn_st rn) t)); [exists 0; reflexivity|].
     destruct (source_key r (rn_st rn) t) as [sk|]; [|exists 1; reflexivity].
     destruct (if c then s_cache (rn_st rn) (t_label t) ((t_defkey t, []), sk) else None); [exists 0; reflexivity|].
-    unfold run_action. destruct (gather _ _); [|exists 1; reflexivity].
+    unfold run_action. destruct (gather_in _ _ _); [|exists 1; reflexivity].
     destruct (act _ _ _); [exists 0|exists 1]; reflexivity.
 Qed.
